@@ -286,14 +286,11 @@ fn parse_operand_list<'a>(i: SliceIter<'a, Token>) -> ParseResult<'a, Vec<Elemen
             compare_op_type,
             bool_op_type
         ) {
-            Result::Fail(e) => {
-                if firstrun {
-                    // If we don't find an operator in our first
-                    // run then this is not an operand list.
-                    return Result::Fail(e);
-                }
-                // if we don't find one on subsequent runs then
-                // that's the end of the operand list.
+            Result::Fail(_) => {
+                // If we don't find an operator then that's the end of the
+                // operand list. A single operand with no operator is
+                // returned as is so the caller does not have to parse it
+                // a second time, which was exponential in the nesting depth.
                 break;
             }
             Result::Abort(e) => {
